@@ -54,6 +54,8 @@ impl<V, G> HnswIndex<V, G> {
         let mut rng = rand::thread_rng();
         let ml = 1.0 / (self.params.m as f64).ln();
         let r: f64 = rng.r#gen();
+        #[cfg(nervusdb_verif)]
+        let r: f64 = nervusdb_api::verif::rng_f64().unwrap_or(r);
         ((-r.ln() * ml).floor() as u8).min(16) // Cap at 16 layers for safety
     }
 
